@@ -11,7 +11,7 @@ RECURSIVE Pow(_,_)
 Pow(X, n) == IF n = 0 THEN {""} ELSE Cat(X, Pow(X, n - 1))
 Digits == {"0","1","2","3","4","5","6","7","8","9"}
 Lower == {"a","b","c","d","e","f","g","h","i","j","k","l","m","n","o","p","q","r","s","t","u","v","w","x","y","z"}
-Order == <<"0","1","2","3","4","5","6","7","8","9","a","b","c","d">>   \* enough of ASCII order for ranges over digits / a-d
+Order == <<" ","*","+",",","-",".","/","0","1","2","3","4","5","6","7","8","9","]","a","b","c","d">>   \* enough of ASCII order for the ranges used
 Idx(c) == CHOOSE i \in DOMAIN Order : Order[i] = c
 Range(lo, hi) == { Order[i] : i \in Idx(lo)..Idx(hi) }
 ShortSet(k) == CASE k = "d" -> Digits [] k = "s" -> {" "} [] k = "w" -> Digits \cup Lower \cup {"_"}
